@@ -85,6 +85,16 @@ def record_case(case):
     except Exception as e:  # noqa: BLE001
         return [{'error': f'{type(e).__name__}: {e}'[:200]}]
     marks = {r.name: [bool(r.is_lrec), bool(r.is_memo and not r.no_memo)] for r in model.rules}
+    parser_cls = None
+    if case.get('backend') == 'gen':
+        # the generated parser of the same grammar: its executions are validated against the generated-parser flavour of PegMachine
+        try:
+            src = tatsu.to_python_sourcecode(case['ebnf'], name='Rec')
+            ns = {}
+            exec(compile(src, '<generated>', 'exec'), ns)   # noqa: S102
+            parser_cls = ns['RecParser']
+        except Exception as e:  # noqa: BLE001
+            return [{'error': f'generated parser: {type(e).__name__}: {e}'[:200]}]
     g = dict(case['g'])
     g['rules'] = [dict(r, lrec=marks.get(r['name'], [False, True])[0], memo=marks.get(r['name'], [False, True])[1]) for r in g['rules']]
     for text in case['texts']:
@@ -94,7 +104,10 @@ def record_case(case):
             if case.get('sem') not in (None, 'none'):
                 from .impl import make_semantics
                 kw['semantics'] = make_semantics(case['sem'], case['cfg'].get('actrule', '*'))
-            model.parse(text, start=case.get('start', 's'), **kw)
+            if parser_cls is not None:
+                parser_cls().parse(text, start=case.get('start', 's'), **kw)
+            else:
+                model.parse(text, start=case.get('start', 's'), **kw)
             ok = True
         except FailedParse:
             ok = False
@@ -109,5 +122,6 @@ def record_case(case):
             e.setdefault('kind', '')
             e.setdefault('v', {'t': 'n'})
             evs.append(e)
-        out.append({'g': g, 'cfg': case['cfg'], 'inp': list(text), 'start': case.get('start', 's'), 'ok': ok, 'ev': evs})
+        cfg = dict(case['cfg'], backend='gen') if parser_cls is not None else case['cfg']
+        out.append({'g': g, 'cfg': cfg, 'inp': list(text), 'start': case.get('start', 's'), 'ok': ok, 'ev': evs})
     return out
